@@ -17,7 +17,9 @@ SITES = {
 }
 
 
-def analyse(F, run, prop, rule, site):
+def analyse(F, run, prop, rule, site, soft=False):
+    """soft: return False instead of failing closed when the loop leaves the symbolic-column sub-language (the caller then decides the same
+    obligations on the concrete-shape evaluation of rules/lm.py)."""
     path, vecname, fname = SITES[site]
     b = F.fn(path)
     run.analysed(b)
@@ -36,6 +38,8 @@ def analyse(F, run, prop, rule, site):
     except sym.Return as r:
         res = r.value
     except sym.Unsupported as u:
+        if soft:
+            return False
         run.broken(rule, path, "body", F.loc(b, u.node if isinstance(u.node, dict) else None), "cannot interpret the Jacobian loop: %s" % u)
         return
     where = F.loc(b)
